@@ -10,8 +10,13 @@ use std::process::{Command, Stdio};
 use std::sync::atomic::{AtomicU64, Ordering};
 use std::time::{Duration, Instant};
 
-pub const CLI_BIN: &str = "/verif/target/cli/release/cfr";
-pub const TMP_DIR: &str = "/verif/target/tmp";
+pub fn cli_bin() -> String {
+    format!("{}/target/cli/release/cfr", crate::runner::verif_dir())
+}
+
+pub fn tmp_dir() -> String {
+    format!("{}/target/tmp", crate::runner::verif_dir())
+}
 
 /// Sort actions by label; chance outcomes keep their order (their file names are o0, o1, ...).
 /// This is the order both readers of the program produce.
@@ -522,13 +527,13 @@ pub struct Ran {
 static COUNTER: AtomicU64 = AtomicU64::new(0);
 
 pub fn tmp_path(ext: &str) -> PathBuf {
-    let _ = std::fs::create_dir_all(TMP_DIR);
+    let _ = std::fs::create_dir_all(tmp_dir());
     let n = COUNTER.fetch_add(1, Ordering::SeqCst);
-    PathBuf::from(TMP_DIR).join(format!("case-{}-{}.{}", std::process::id(), n, ext))
+    PathBuf::from(tmp_dir()).join(format!("case-{}-{}.{}", std::process::id(), n, ext))
 }
 
 pub fn run_cli(args: &[String], stdin: Option<&str>) -> Ran {
-    let mut cmd = Command::new(CLI_BIN);
+    let mut cmd = Command::new(cli_bin());
     cmd.args(args)
         .env_clear()
         .env("RUST_BACKTRACE", "0")
